@@ -208,4 +208,45 @@ theorem wAt_accumulate_pos (cs : List (Contrib ℝ)) (hw : ∀ c ∈ cs, c.st = 
       · subst h; exact absurd hok hc
       · exact ih hw' ⟨c', h, hok, hi'⟩ acc hlen
 
+theorem length_project (n : Nat) (cs : List (Contrib ℝ)) : (project n cs).2.length = n := by
+  unfold project
+  simp only [List.length_map, length_accumulate, List.length_replicate]
+
+theorem eq_replicate_of_getElem? {β : Type} (l : List β) (n : Nat) (b : β) (hl : l.length = n)
+    (h : ∀ i, i < n → l[i]? = some b) : l = List.replicate n b := by
+  apply List.ext_getElem?
+  intro i
+  by_cases hi : i < n
+  · rw [h i hi, List.getElem?_replicate, if_pos hi]
+  · rw [List.getElem?_eq_none (by omega), List.getElem?_replicate, if_neg hi]
+
+/-- all vertex ids of the tets are node indices -/
+def TetsWF (n : Nat) (ts : List Tet) : Prop := ∀ t ∈ ts, t.n0 < n ∧ t.n1 < n ∧ t.n2 < n ∧ t.n3 < n
+
+
+/-- the field is `α + g·x` at the four vertices of `t` -/
+def LinearOnTet (xyz : List (V3 ℝ)) (s : List ℝ) (α : ℝ) (g : V3 ℝ) (t : Tet) : Prop :=
+  sAt s t.n0 = α + vdot g (xyzAt xyz t.n0) ∧ sAt s t.n1 = α + vdot g (xyzAt xyz t.n1) ∧
+  sAt s t.n2 = α + vdot g (xyzAt xyz t.n2) ∧ sAt s t.n3 = α + vdot g (xyzAt xyz t.n3)
+
+/-- the field is `α + g·x` at the three vertices of `t` -/
+def LinearOnTri (xyz : List (V3 ℝ)) (s : List ℝ) (α : ℝ) (g : V3 ℝ) (t : Tri) : Prop :=
+  sAt s t.n0 = α + vdot g (xyzAt xyz t.n0) ∧ sAt s t.n1 = α + vdot g (xyzAt xyz t.n1) ∧
+  sAt s t.n2 = α + vdot g (xyzAt xyz t.n2)
+
+/-- all vertex ids of the triangles are node indices -/
+def TrisWF (n : Nat) (ts : List Tri) : Prop := ∀ t ∈ ts, t.n0 < n ∧ t.n1 < n ∧ t.n2 < n
+
+theorem hessianOf_zero (G : List ℝ → St × List (V3 ℝ)) (s : List ℝ) (g : V3 ℝ) (n : Nat)
+    (h1 : (G s).2 = List.replicate n g)
+    (h2 : ∀ c : ℝ, (G (List.replicate n c)).2 = List.replicate n ⟨0, 0, 0⟩) :
+    hessianOf G s = List.replicate n ⟨0, 0, 0, 0, 0, 0⟩ := by
+  unfold hessianOf
+  simp only [h1, List.map_replicate, h2, List.length_replicate]
+  apply eq_replicate_of_getElem? _ _ _ (by simp)
+  intro i hi
+  simp only [List.getElem?_map, List.getElem?_range hi, Option.map_some, List.getD_eq_getElem?_getD,
+    List.getElem?_replicate, if_pos hi, Option.getD_some, add_eq, mul_eq, add_zero, mul_zero]
+
+
 end Refine.ReconReal
